@@ -29,7 +29,7 @@ var (
 
 	// Router is shared between httpd, webui and rest packages. It sends
 	// incoming requests to the correct handler function
-	Router = mux.NewRouter()
+	Router = NewRouter()
 
 	rootConfig *config.Root
 	server     *http.Server
@@ -42,6 +42,12 @@ var (
 func init() {
 	m := expvar.NewMap("http")
 	m.Set("WebSocketConnectsCurrent", ExpWebSocketConnectsCurrent)
+}
+
+// NewRouter returns a router that matches routes against the encoded request path, so that an
+// escaped '/' (%2F) in a mailbox name or message ID stays inside its path variable.
+func NewRouter() *mux.Router {
+	return mux.NewRouter().UseEncodedPath()
 }
 
 // Server defines an instance of the Web server.
